@@ -80,7 +80,8 @@ def run(ctx):
             if hit < 1 or (miss < 1 and not (fam == "v6" and L == 0)):
                 floors.append(f"length sweep: {fam} /{L} has hits={hit} misses={miss}")
     ctx.cov["generator_floors_failed"] = floors
-    if floors:
+    if floors and not ctx.violations and not ctx.proof_failures:
+        # (with violations present the floors are moot: e.g. a broken /0 turns every probe into a hit)
         ctx.say("GENERATOR-FLOOR-FAILED " + "; ".join(floors[:5]))
         return 2
     ctx.assumptions = ["probe addresses and prefix sets are generated (seeded); sizes 1..~220 prefixes per set"]
